@@ -93,7 +93,7 @@ def refill(R, prog):
     roff, rsize = pn[0], pn[1]
     BUF = K.one(K.local_names_init_by(f, lambda e, i: e['k'] == 'construct' and 'IOVector' in (e.get('fn') or '') and 'allocator_' in f.show(i)), 'refill buffer (IOVector on the store allocator)', f)
     RBUF = K.one(K.local_names_init_by(f, lambda e, i: e['k'] == 'construct' and 'IOVector' in (e.get('fn') or '') and (BUF + '.iovec()') in f.show(i)), 'view of the refill buffer', f)
-    RET = K.one(K.locals_assigned_from_call(f, r'RangeLock::try_lock_wait$'), 'result local', f)
+    RET = K.one(K.locals_assigned_from_call(f, r'RangeLock::try_lock_wait$') or K.locals_assigned_from_call(f, r'::preadv2$'), 'result local', f)
     REFILLING = K.one(K.locals_assigned_from_call(f, r'::load$'), 'sampled refilling counter', f)
     MAXR = K.one([d['name'] for d in f.decls if d['kind'] == 'staticlocal' and 'int' in (d.get('type') or '')], 'max refilling (static)', f)
     CN = K.canon({'buffer': BUF, 'refill_buf': RBUF, 'ret': RET, 'refilling': REFILLING, 'max_refilling': MAXR})
